@@ -88,25 +88,29 @@ Proof.
   intros x Hx. apply Hb. right. exact Hx.
 Qed.
 
-Theorem change_signature_a_inactive (m : renaming) (a a' : maction) :
-  no_target_in (bound_maction a) m -> change_signature_a m a = Ok a' -> a' = change_signature m a.
+Theorem change_signature_fuel_inactive (fuel : nat) (m : renaming) (a a' : maction) :
+  no_target_in (bound_maction a) m -> change_signature_fuel fuel m a = Ok a' -> a' = change_signature m a.
 Proof.
-  intros Hm H. unfold change_signature_a in H.
+  intros Hm H. unfold change_signature_fuel in H.
   apply bind_ok_inv in H. destruct H as [pre [Hpre H]].
   apply bind_ok_inv in H. destruct H as [conds [Hconds H]].
   apply bind_ok_inv in H. destruct H as [univs [Hunivs H]].
   inversion H; subst a'. unfold change_signature. unfold bound_maction in Hm.
   set (B := bound_pre (ma_pre a) ++ flat_map (fun ce => bound_pre (ce_ante ce)) (ma_cond a) ++
             flat_map (fun ue => ue_var ue :: bound_pre (ce_ante (ue_ce ue))) (ma_univ a)) in *.
-  rewrite (proj1 (rename_a_inactive B alpha_fuel) m (ma_pre a) pre Hm); [| |exact Hpre].
+  rewrite (proj1 (rename_a_inactive B fuel) m (ma_pre a) pre Hm); [| |exact Hpre].
   2:{ intros x Hx. unfold B. apply in_or_app. left. exact Hx. }
-  rewrite (mapM_ok_map (rename_condeff_a alpha_fuel m) (rename_condeff m) (ma_cond a) conds); [| |exact Hconds].
-  2:{ intros ce ce' Hin Hce. apply (rename_condeff_a_inactive B alpha_fuel m ce ce' Hm); [|exact Hce].
+  rewrite (mapM_ok_map (rename_condeff_a fuel m) (rename_condeff m) (ma_cond a) conds); [| |exact Hconds].
+  2:{ intros ce ce' Hin Hce. apply (rename_condeff_a_inactive B fuel m ce ce' Hm); [|exact Hce].
       intros x Hx. unfold B. apply in_or_app. right. apply in_or_app. left. apply in_flat_map. exists ce. split; assumption. }
-  rewrite (mapM_ok_map (rename_univeff_a alpha_fuel m) (rename_univeff m) (ma_univ a) univs); [reflexivity| |exact Hunivs].
-  intros ue ue' Hin Hue. apply (rename_univeff_a_inactive B alpha_fuel m ue ue' Hm); [|exact Hue].
+  rewrite (mapM_ok_map (rename_univeff_a fuel m) (rename_univeff m) (ma_univ a) univs); [reflexivity| |exact Hunivs].
+  intros ue ue' Hin Hue. apply (rename_univeff_a_inactive B fuel m ue ue' Hm); [|exact Hue].
   intros x Hx. unfold B. apply in_or_app. right. apply in_or_app. right. apply in_flat_map. exists ue. split; assumption.
 Qed.
+
+Theorem change_signature_a_inactive (m : renaming) (a a' : maction) :
+  no_target_in (bound_maction a) m -> change_signature_a m a = Ok a' -> a' = change_signature m a.
+Proof. exact (change_signature_fuel_inactive alpha_fuel m a a'). Qed.
 
 (* the side condition of C18_rename gives the premise, for a mapping (a Python dict: distinct keys) whose moved keys are
    names of the action *)
